@@ -78,7 +78,11 @@ def oracle(chk, scn, obs, stats):
         for s, d in an["moves"]:
             if d in init and d not in srcs and dsts.count(d) == 1:
                 if fin.get(d, (None,))[:2] != init[s][:2]:
-                    chk.oracle_fail("override: destination %r was occupied by an unselected file but does not hold the content of %r afterwards" % (d, s), case)
+                    # F33 (recorded): the source of this move is itself the destination of another selected file; under
+                    # override the deferred renames are forced last-deferred-first, so the source can be overwritten
+                    # before it has moved
+                    chk.oracle_fail("override: destination %r was occupied by an unselected file but does not hold the content of %r afterwards" % (d, s), case,
+                                    finding="F33" if s in dsts else None)
                     return
                 stats["override_replaced"] += 1
 
@@ -184,6 +188,13 @@ def run(chk):
                 scns.append(s)
     for i in range(n_scn):
         scns.append(pipe.gen_scenario(rng, dry=False, strategy=rng.choice(["stop", "ignore", "override", "manual"]), big=(i % 6 == 0)))
+    small = []
+    for st in ("stop", "ignore", "override"):
+        small += list(pipe.exhaustive_plans(2, strategy=st))
+        if not quick:
+            small += list(pipe.exhaustive_plans(3, strategy=st))
+    stats["exhaustive_small_scope"] = len(small)
+    scns += small
     extra_s, extra_o = [], []
     for i, s in enumerate(scns):
         o = pipe.run_impl(s, keep_snapshots=False)
